@@ -60,6 +60,19 @@ def label_of(i):
     return bytes((65 + i // 26, 97 + i % 26))
 
 
+class OnlyContains:
+    """A container that offers nothing but `in` (the documented type of page_numbers is Container[int])."""
+
+    def __init__(self, items):
+        self._items = frozenset(items)
+
+    def __contains__(self, x):
+        return x in self._items
+
+    def __repr__(self):
+        return "OnlyContains(%r)" % sorted(self._items)
+
+
 class Node:
     def __init__(self, oid, kind):
         self.oid = oid
@@ -318,8 +331,8 @@ def run(tape, ctx, item=None):
     else:
         k = t.rint(1, max(1, min(n + 1, 6)), "sel.k")
         cand = [t.draw(n + 2, "sel.i") for _ in range(k)]
-        page_numbers = {1: set(cand), 2: sorted(set(cand)), 3: range(min(cand), max(cand) + 1), 4: set(cand)}[sel_kind]
-    maxpages = t.pick([0, 0, 1, 2, 3, n, n + 2, max(0, n - 1)], "sel.max")
+        page_numbers = {1: set(cand), 2: sorted(set(cand)), 3: range(min(cand), max(cand) + 1), 4: OnlyContains(cand)}[sel_kind]
+    maxpages = t.pick([0, 0, 1, 2, 3, n, n + 2, max(0, n - 1), -1, 10**9], "sel.max")
     if page_numbers is not None and maxpages:
         ctx.probe("page_numbers with maxpages")
     want_idx = [i for i in range(n) if (page_numbers is None or i in page_numbers) and (maxpages == 0 or i < maxpages)]
